@@ -75,4 +75,45 @@ TEXT = {
        "values at boundary limits; U must equal the sum of announced allocations, be 0 for heap-free values and at least the logical heap payload (half of it for trees). "
        "Fault enumeration: per value the limit space is swept completely.",
   note="Payload computed from the decoded value by harness code (bridge heap()), sizes via size_of of the real element types."),
+ "C05": dict(
+  technique="runtime monitoring of generated programs: a program generator emits derive inputs plus a schema computed from the definition text; the compiled programs run reference-model monitors over themselves; child-process observation for non-termination / stack overflow",
+  text="Hundreds of generated definitions over the supported attribute grammar are compiled against the tree and monitor themselves: skipped variants must encode to "
+       "nothing (and return), values must encode to the concatenation the definition declares through every entry point and decode back with skipped fields defaulted, and "
+       "hostile strings (including every leading/index byte) must be judged as the schema's decoder judges them. The hand-written derived types of the static universe run "
+       "the same monitors. Programs and values are sampled, hence exploration.",
+  note="Schema comes from the generator's AST (index = attribute > discriminant > position among non-skipped variants), never from the macros."),
+ "C06": dict(
+  technique="runtime monitoring over construction histories: fresh-build twin and reference encoder as oracles, layout signatures recorded to prove wrapped/offset/stale states were reached",
+  text="Containers are driven through random construction histories and each reached state must encode exactly like a freshly built equal value and like the specification; "
+       "the run is inconclusive unless wrapped ring buffers were seen for every element type. Bit sequences are additionally enumerated over every head offset and length 0..130 "
+       "for all store/order combinations, and map/set insertion orders of up to 6 keys are enumerated completely.",
+  note="BinaryHeap deliberately excluded (order is history dependent and not promised)."),
+ "C13": dict(
+  technique="runtime monitoring: direct oracle (encoded length vs declared maximum / constant / fixed size) with schema-chosen worst-case witnesses, over built-in impls (compile-time capability probe) and generated derive(MaxEncodedLen) programs",
+  text="For every type that declares a bound the schema's longest value and many boundary-biased values are encoded and measured; constant-length and fixed-size claims are "
+       "checked for equality. Declarations are discovered by a compile-time probe, so a type that newly claims ConstEncodedLen/MaxEncodedLen is tested without editing the harness. "
+       "Generated definitions cover compact / encoded_as / skip fields, skipped variants and generics.",
+  note="One genuine defect was found by this check and repaired (fix: commit 8a99b0c)."),
+ "C15": dict(
+  technique="runtime monitoring: history + executable model (plain Vec extended and re-encoded by the reference encoder) checked after every append",
+  text="Random histories of append_or_new calls over 16 item types, both targets and five item forms are compared after every step with the re-encoded model; count-only "
+       "sequences probe every prefix-width boundary and the 2^32 limit (including batches longer than 2^32), real payloads cross 64, 2^14 and (thorough) 2^30 with 1 GiB behind the prefix; "
+       "inputs without a valid count must be rejected.",
+  note="One genuine defect was found by this check and repaired (fix: commit 48fbdb8)."),
+ "C16": dict(
+  technique="runtime monitoring: differential A vs B for every declared family, with the declaration itself enforced by the checker's trait bound; static audit of declarations",
+  text="For ~75 declared families a generated A-value and the B-value it stands for must encode to the same bytes, and the bytes must decode as B to that value. The generic "
+       "checker requires A: EncodeLike<B>, so only declared pairs compile. Impl headers in the tree are counted and unknown ones surfaced as UNAUDITED.",
+  note="Families the harness has no conversion for are not judged (listed in evidence)."),
+ "C17": dict(
+  technique="runtime monitoring of the derive macros inside rustc: generated programs, reference model of the index/attribute rules, rustc JSON diagnostics attributed through expansion chains; solo re-compilation of every disagreement",
+  text="The monitored execution is the macro expansion and const evaluation in rustc. A model decides for each generated definition whether it is faulty; faulty ones must "
+       "receive an error whose span chain lies inside them, fault-free twins and random valid enums must compile cleanly. Forced collisions cover every pair of index sources; "
+       "thorough enumerates all small enums.",
+  note="Message wording is never matched; rustc's co-reporting of several errors in one crate is not relied upon (solo re-check)."),
+ "C20": dict(
+  technique="runtime monitoring across builds: identical seeded corpus replayed by one probe built per feature configuration; offline checker over the recorded digest logs",
+  text="Six (quick) / twenty-one (thorough) feature configurations of the crate are built and each replays the same corpus; encode digests and decode outcomes are joined on "
+       "case id and must be identical wherever a case exists in two or more configurations. The no_std Output impl, the alloc re-exports and the field-less Error are thereby executed.",
+  note="Only configurations that build are compared; a configuration that fails to build is inconclusive, not a verdict."),
 }
